@@ -16,6 +16,7 @@ import (
 	"github.com/aergoio/aergo/v2/consensus/impl/dpos/bp"
 	"github.com/aergoio/aergo/v2/consensus/impl/dpos/slot"
 	"github.com/aergoio/aergo/v2/internal/enc/proto"
+	"github.com/aergoio/aergo/v2/p2p/p2pkey"
 	"github.com/aergoio/aergo/v2/types"
 	"github.com/aergoio/aergo/v2/zz_verif/c09lib"
 	"github.com/aergoio/aergo/v2/zz_verif/vh"
@@ -45,8 +46,32 @@ func randHeader(rng *vh.Rng) *types.BlockHeader {
 	return h
 }
 
+// asValidator: the verdict of the consensus checks must not depend on WHO validates. Before a check the process gets the
+// node identity (p2pkey, as InitNodeInfo sets it) of: nobody (never initialised), the very key the presented header names,
+// or some other key of the pool.
+func asValidator(run *vh.Run, byID map[string]producer, all []producer, named string) string {
+	rng := run.Rng
+	switch rng.Intn(3) {
+	case 0:
+		p2pkey.VerifC09SetNodeKey(nil)
+		return "none"
+	case 1:
+		if p, ok := byID[named]; ok {
+			p2pkey.VerifC09SetNodeKey(p.Priv)
+			return "key-named-in-header"
+		}
+	}
+	p := all[rng.Intn(len(all))]
+	p2pkey.VerifC09SetNodeKey(p.Priv)
+	if p.ID == named {
+		return "key-named-in-header"
+	}
+	return "other-key"
+}
+
 func consensusChecks(run *vh.Run, pool []producer) {
 	rng := run.Rng
+	defer p2pkey.VerifC09SetNodeKey(nil)
 	big := append([]producer{}, pool...)
 	for len(big) < 104 {
 		big = append(big, newProducer(rng))
@@ -54,6 +79,10 @@ func consensusChecks(run *vh.Run, pool []producer) {
 	var eds []producer
 	for i := 0; i < 3; i++ {
 		eds = append(eds, c09lib.NewEd25519Producer(rng))
+	}
+	byID := map[string]producer{}
+	for _, p := range append(append([]producer{}, big...), eds...) {
+		byID[p.ID] = p
 	}
 	c3, err := bp.VerifNewCluster(idsOf(pool[:3]))
 	if err != nil {
@@ -202,13 +231,15 @@ func consensusChecks(run *vh.Run, pool []producer) {
 			run.Count("vsign-bad-key-still-unmarshals " + v)
 		}
 		rawValid, rawErr := blk.VerifySign()
+		who := asValidator(run, byID, big, j.Key)
 		verr := d3.VerifySign(blk)
 		run.Op(fmt.Sprintf("vsign %s %s", j.Key, j.Class), fmt.Sprint(verr == nil), j.Key != "-")
 		run.Count(fmt.Sprintf("vsign %s key=%v sig=%s raw=(%v,err=%v) accepted=%v", v, j.Key != "-", j.Class, rawValid, rawErr != nil, verr == nil))
+		run.Count(fmt.Sprintf("validator-identity vsign %s sig=%s", who, j.Class))
 		if (verr == nil) != j.OK() {
 			run.Fail("DPoS.VerifySign differs from 'the signature verifies over the complete header with the key in the header'",
 				map[string]interface{}{"variant": v, "keyParses": j.Key != "-", "signature": j.Class, "accepted": verr == nil,
-					"header": fmt.Sprintf("%+v", h)})
+					"validatorIdentity": who, "header": fmt.Sprintf("%+v", h)})
 		}
 	}
 
@@ -219,12 +250,14 @@ func consensusChecks(run *vh.Run, pool []producer) {
 	// the identifier a forged block then carries.
 	present := func(what string, blk *types.Block) {
 		j := c09lib.JudgeSig(blk.Header)
+		who := asValidator(run, byID, big, j.Key)
 		verr := d3.VerifySign(blk)
 		run.Op(fmt.Sprintf("vsign %s %s", j.Key, j.Class), fmt.Sprint(verr == nil), j.Key != "-")
 		run.Count(fmt.Sprintf("vsign-seq %s key=%v sig=%s accepted=%v", what, j.Key != "-", j.Class, verr == nil))
+		run.Count(fmt.Sprintf("validator-identity vsign-seq %s sig=%s", who, j.Class))
 		if (verr == nil) != j.OK() {
 			run.Fail("DPoS.VerifySign differs from 'the signature verifies over the complete header with the key in the header' for a header presented under the carried identifier of another block",
-				map[string]interface{}{"step": what, "keyParses": j.Key != "-", "signature": j.Class, "accepted": verr == nil,
+				map[string]interface{}{"step": what, "keyParses": j.Key != "-", "signature": j.Class, "accepted": verr == nil, "validatorIdentity": who,
 					"carriedHash": fmt.Sprintf("%x", blk.Hash), "header": fmt.Sprintf("%+v", blk.Header)})
 		}
 	}
@@ -390,7 +423,9 @@ func consensusChecks(run *vh.Run, pool []producer) {
 				}
 			}
 			j := c09lib.JudgeSig(blk.Header)
+			who := asValidator(run, byID, members, j.Key)
 			ok := d.IsBlockValid(blk, nil) == nil
+			run.Count("validator-identity validk " + who)
 			run.Op(fmt.Sprintf("validk %d %d %s %s", iv, ts, j.Key, strings.Join(ids, " ")), fmt.Sprint(ok), true)
 			run.Count(fmt.Sprintf("validk n=%s %s dup=%v pre-epoch=%v valid=%v", bucket(n), what, dup, pre, ok))
 			if dup || pre {
